@@ -17,8 +17,8 @@ DEFS = {
     "C07": {
         "module": "worlds.c07", "level": "fault_enumeration",
         "stages": {
-            "quick": [{"name": "sampled multi-crash plans", "n": 6000, "wall": 40, "opts": {"mode": "sample", "chunk": 25}},
-                      {"name": "per-scenario sweep of every seam event", "n": 48, "wall": 30, "opts": {"mode": "sweep", "chunk": 1}}],
+            "quick": [{"name": "sampled multi-crash plans", "n": 12000, "wall": 45, "opts": {"mode": "sample", "chunk": 25}},
+                      {"name": "per-scenario sweep of every seam event", "n": 96, "wall": 35, "opts": {"mode": "sweep", "chunk": 1}}],
             "thorough": [{"name": "sampled multi-crash plans", "n": 400000, "wall": 360, "opts": {"mode": "sample", "chunk": 50}},
                          {"name": "per-scenario sweep of every seam event", "n": 3000, "wall": 200, "opts": {"mode": "sweep", "chunk": 1}},
                          {"name": "per-scenario sweep of every seam event and every source line", "n": 400, "wall": 330,
@@ -40,7 +40,7 @@ DEFS = {
     "C05": {
         "module": "worlds.c05", "level": "exploration",
         "stages": {
-            "quick": [{"name": "fault-free histories", "n": 12000, "wall": 55, "opts": {"chunk": 50}}],
+            "quick": [{"name": "fault-free histories", "n": 24000, "wall": 55, "opts": {"chunk": 50}}],
             "thorough": [{"name": "fault-free histories", "n": 1500000, "wall": 840, "opts": {"chunk": 100}}],
         },
         "rule": ("plan = seeded grid (0-3 unpacked parameters, up to 24 combinations; ints, floats, strings, numpy arrays), rep_max, stop rule, skip pattern, "
@@ -53,7 +53,7 @@ DEFS = {
     "C06": {
         "module": "worlds.c06", "level": "exploration",
         "stages": {
-            "quick": [{"name": "accumulator schedules and merge trees", "n": 60000, "wall": 45, "opts": {"chunk": 250}}],
+            "quick": [{"name": "accumulator schedules and merge trees", "n": 120000, "wall": 50, "opts": {"chunk": 250}}],
             "thorough": [{"name": "accumulator schedules and merge trees", "n": 6000000, "wall": 800, "opts": {"chunk": 1000}}],
         },
         "rule": ("plan = a stream of 1-40 observations scheduled over up to 8 accumulators (contiguous chunks, updates interleaved with merges, arbitrary association "
@@ -68,7 +68,7 @@ DEFS = {
     "C08": {
         "module": "worlds.c08", "level": "exploration",
         "stages": {
-            "quick": [{"name": "update/read histories", "n": 40000, "wall": 45, "opts": {"chunk": 200}}],
+            "quick": [{"name": "update/read histories", "n": 100000, "wall": 50, "opts": {"chunk": 200}}],
             "thorough": [{"name": "update/read histories", "n": 5000000, "wall": 800, "opts": {"chunk": 1000}}],
         },
         "rule": ("plan = one channel object (plain or external-interference), K 1-4 users with unequal antennas, and 4-27 operations from randomize (channel RandomState re-seeded "
@@ -84,7 +84,7 @@ DEFS = {
     "C10": {
         "module": "worlds.c10", "level": "exploration",
         "stages": {
-            "quick": [{"name": "solver histories", "n": 6000, "wall": 50, "opts": {"chunk": 20}}],
+            "quick": [{"name": "solver histories", "n": 24000, "wall": 55, "opts": {"chunk": 20}}],
             "thorough": [{"name": "solver histories", "n": 600000, "wall": 840, "opts": {"chunk": 50}}],
         },
         "rule": ("plan = one solver (closed form, alternating minimisation, minimum leakage, max SINR, MMSE) on a seeded K=2-4 user channel (closed form: K=3, Ns=N/2), unequal antennas, "
@@ -101,7 +101,7 @@ DEFS = {
     "C14": {
         "module": "worlds.c14", "level": "exploration",
         "stages": {
-            "quick": [{"name": "request/skip histories", "n": 20000, "wall": 50, "opts": {"chunk": 50}}],
+            "quick": [{"name": "request/skip histories", "n": 60000, "wall": 50, "opts": {"chunk": 50}}],
             "thorough": [{"name": "request/skip histories", "n": 2000000, "wall": 840, "opts": {"chunk": 100}}],
         },
         "rule": ("plan = generator configuration (Fd 0..500 Hz, Ts 1e-9..1 s, L 1-16 rays, shape None/int/tuple, RandomState seed) and 1-40 operations from generate(n) (n 1..1e5, also None), "
@@ -115,7 +115,7 @@ DEFS = {
     "C03": {
         "module": "worlds.c03", "level": "exploration",
         "stages": {
-            "quick": [{"name": "transmission histories", "n": 20000, "wall": 50, "opts": {"chunk": 50}}],
+            "quick": [{"name": "transmission histories", "n": 60000, "wall": 50, "opts": {"chunk": 50}}],
             "thorough": [{"name": "transmission histories", "n": 3000000, "wall": 840, "opts": {"chunk": 100}}],
         },
         "rule": ("plan = one channel object (TdlChannel, TdlMimoChannel, SuChannel, SuMimoChannel / SuChannel with unequal antennas, MuChannel, MuMimoChannel), Jakes or Rayleigh fading "
@@ -132,7 +132,7 @@ DEFS = {
     "C13": {
         "module": "worlds.c13", "level": "exploration",
         "stages": {
-            "quick": [{"name": "setter histories", "n": 40000, "wall": 40, "opts": {"chunk": 250}}],
+            "quick": [{"name": "setter histories", "n": 120000, "wall": 45, "opts": {"chunk": 250}}],
             "thorough": [{"name": "setter histories", "n": 4000000, "wall": 600, "opts": {"chunk": 1000}}],
         },
         "rule": ("plan = one path-loss model (general, free space, 3GPP, METIS PS7 LOS/NLOS with 0-5 walls, Okumura-Hata) and 1-12 operations from parameter setters (valid and INVALID values: "
@@ -147,7 +147,7 @@ DEFS = {
     "C15": {
         "module": "worlds.c15", "level": "exploration",
         "stages": {
-            "quick": [{"name": "construct / setPhaseOffset histories", "n": 3000, "wall": 40, "opts": {"chunk": 20}}],
+            "quick": [{"name": "construct / setPhaseOffset histories", "n": 12000, "wall": 45, "opts": {"chunk": 20}}],
             "thorough": [{"name": "construct / setPhaseOffset histories", "n": 200000, "wall": 600, "opts": {"chunk": 50}}],
         },
         "rule": ("plan = construct PSK(M, phase) for M = 2..2^10 (thorough: 2^12), QAM(M) for M = 4..4^5 (thorough: 4^6), BPSK or QPSK, then 0-6 setPhaseOffset calls; after every step every "
